@@ -13,6 +13,7 @@ pub mod scen_gate;
 pub mod scen_multi;
 pub mod ledger;
 pub mod scen_conn;
+pub mod scen_determ;
 pub mod scenarios;
 pub mod sim;
 pub mod workload;
